@@ -9,6 +9,8 @@ from ..core import hx, unhx
 class C06(Base):
     ID = "C06"
     AREA = "fmt"
+    # the end-to-end composition (load any FTL text, format any message: total, fuel-independent, both APIs agree)
+    EXTRA_MODULES = ["FluentProofs.Props.E2E"]
     LEMMA_FILES = ["FluentProofs/Resolver.lean", "FluentProofs/ResolverTotal.lean", "FluentProofs/ResolverBound.lean", "FluentProofs/ResolverFuel.lean", "FluentProofs/ConstTieResolver.lean"]
     RULE = ("GR random bundles (<=6 messages, <=4 terms over a colliding id alphabet: cycles, self-reference, missing "
             "references at value/selector/argument position, value-less messages, selects on variables/literals/functions/"
